@@ -654,6 +654,53 @@ theorem C02.custom_discr_inner_symm_partial (close1 : ℝ → Bool) (u : Bool)
       simp only [cInner, ops_re, roots_sqrt]
       rw [Real.sq_sqrt (hf.nonneg _), ← hreal]
 
+/-- What SURVIVES of the axioms for a custom inner product under a `DiscretizedSpace` with
+partial boundary cells, for EVERY admissible user form `f` (no commutation hypothesis; any
+dimension, shape, boundary fractions, tolerance test): the code's `norm` (boundary entries
+scaled by `frac ** (1/2)`, then `sqrt(f(·,·).real)`) is absolutely homogeneous and subadditive,
+and the code's `dist` (both arguments scaled, then `Weighting.dist`) equals `norm(x - y)` and
+is a pseudo-metric.  Only the relation between `norm` and `inner` (and the symmetry of `inner`)
+is lost (finding C02-F8); these are the parts the stream `custom/D-scaled/i/*` keeps checking
+on the real code. -/
+theorem C02.custom_discr_norm_dist_seminorm (close1 : ℝ → Bool) (u : Bool)
+    (axes : List (Axis ℝ)) (f : (Nat → 𝕜) → (Nat → 𝕜) → 𝕜) (hf : IsInner f) :
+    ∃ N : (Nat → 𝕜) → ℝ,
+      (∀ x, cdNorm (ops 𝕜) (roots close1) u axes (.inner f) x = some (N x)) ∧
+      (∀ x y, cdDist (ops 𝕜) (roots close1) u axes (.inner f) x y = some (N (x - y))) ∧
+      (∀ (a : 𝕜) x, N (a • x) = ‖a‖ * N x) ∧ (∀ x y, N (x + y) ≤ N x + N y) ∧
+      IsDist (fun x y => N (x - y)) := by
+  obtain ⟨h1, h2, _⟩ := hf.norm_props
+  by_cases hsc : scalesBoundary close1 u axes (TW.const 1) Expo.two = true
+  · let S : (Nat → 𝕜) → (Nat → 𝕜) := fun x i =>
+      x i * ((bfac close1 (fun f => f ^ ((1 : ℝ) / 2)) axes i : ℝ) : 𝕜)
+    have hSa : ∀ (a : 𝕜) x, S (a • x) = a • S x := fun a x => by
+      funext i; simp only [S, Pi.smul_apply, smul_eq_mul, mul_assoc]
+    have hSadd : ∀ x y, S (x + y) = S x + S y := fun x y => by
+      funext i; simp only [S, Pi.add_apply, add_mul]
+    have hN : IsNorm 𝕜 (fun x => Real.sqrt (RCLike.re (f (S x) (S x)))) :=
+      ⟨fun a x => by simp only [hSa]; exact h1 a (S x),
+       fun x y => by simp only [hSadd]; exact h2 (S x) (S y)⟩
+    refine ⟨fun x => Real.sqrt (RCLike.re (f (S x) (S x))), fun x => ?_, fun x y => ?_,
+      hN.smul, hN.tri, hN.dist_props⟩
+    · simp only [cdNorm, Custom.expo, roots_close1, hsc, ↓reduceIte, cNorm, ops_re, roots_sqrt,
+        ops_rK, roots_rpow, Expo.inv, S]
+    · have hv : ∀ x y : Nat → 𝕜, vsub (S x) (S y) = S (x - y) := fun x y => by
+        funext i; simp only [vsub, S, Pi.sub_apply, sub_mul]
+      simp only [cdDist, Custom.expo, roots_close1, hsc, ↓reduceIte, cDist, cNorm, ops_re,
+        roots_sqrt, ops_rK, roots_rpow, Expo.inv]
+      rw [show (fun i => x i * ((bfac close1 (fun f => f ^ ((1 : ℝ) / 2)) axes i : ℝ) : 𝕜)) = S x
+        from rfl, show (fun i => y i * ((bfac close1 (fun f => f ^ ((1 : ℝ) / 2)) axes i : ℝ) : 𝕜))
+        = S y from rfl, hv]
+  · have hN : IsNorm 𝕜 (fun x => Real.sqrt (RCLike.re (f x x))) := ⟨h1, h2⟩
+    refine ⟨fun x => Real.sqrt (RCLike.re (f x x)), fun x => ?_, fun x y => ?_,
+      hN.smul, hN.tri, hN.dist_props⟩
+    · simp only [cdNorm, Custom.expo, roots_close1, hsc, Bool.false_eq_true, ↓reduceIte, cNorm,
+        ops_re, roots_sqrt]
+    · have hv : ∀ x y : Nat → 𝕜, vsub x y = x - y := fun x y => by
+        funext i; simp only [vsub, Pi.sub_apply]
+      simp only [cdDist, Custom.expo, roots_close1, hsc, Bool.false_eq_true, ↓reduceIte, cDist,
+        cNorm, ops_re, roots_sqrt, hv]
+
 open Classical in
 /-- FINDING C02-F8 on the model (the stream `custom/D-scaled/i/*` shows the same on the real
 code): two nodes, left node on the domain boundary (`frac = 1/2`), user inner product
